@@ -66,6 +66,32 @@ def check(ctx):
     # computed from (shared with C14.R6) -- a stale view gives a species no slot, or a slot to a species that is gone
     from .c14 import _r6 as live_views
     ctx.absorb(lambda sub: live_views(sub, package(sub.tree)), "R12", only=lambda o: any(k in o.key for k in ("Network.species:", "Network.elements:")) and o.outcome != "MISSING")
+    _stable_keys(ctx)
+
+
+def _stable_keys(ctx):
+    """The keys of template constructs carry the template line (`file:cfg:line N:what`).  A construct listed in known_findings.json
+    is the same construct after lines were inserted above it: among the violations that differ from a listed key only in the line
+    number, the k-th (in line order) is the k-th listed one and takes its key; further ones keep their own key and are reported."""
+    from ..core import load_known
+    strip = lambda k: re.sub(r":line \d+:", ":line *:", k)
+    lineno = lambda k: int(re.search(r":line (\d+):", k).group(1))
+    listed = {}
+    for e in load_known():
+        if e.get("property") == "C09" and e.get("status") == "known" and re.search(r":line \d+:", e.get("key", "")):
+            listed.setdefault(strip(e["key"]), []).append(e["key"])
+    if not listed:
+        return
+    groups = {}
+    for o in ctx.obs:
+        if o.outcome == "VIOLATION" and re.search(r":line \d+:", o.key) and strip(o.fkey) in listed:
+            groups.setdefault(strip(o.fkey), []).append(o)
+    for sk, obs in groups.items():
+        keys = sorted(listed[sk], key=lineno)
+        if all(o.fkey in keys for o in obs):
+            continue
+        for o, k in zip(sorted(obs, key=lambda o: o.line), keys):
+            o.key = k.split("|", 1)[1]
 
 
 # ------------------------------------------------------------------ the alias rule (R6 anchor)
@@ -581,7 +607,13 @@ def _r4_defs(ctx, pkg):
     for f in cfl.facts:
         if f.kind == "attrstore" and f.target in want:
             seq, fld = want[f.target]
-            m = as_map(simp(f.value))
+            val = simp(f.value)
+            if val[0] == "acc":
+                val = acc_comp(cfl, val[1]) or val           # a list filled by one append in one loop
+            m = as_map(val)
+            if not m:
+                ctx.unrec("R4", f"NetworkConfiguration:{f.target}", (CONF, f.line), f"{f.target} is not a list built from a network sequence: {show(val)[:100]}")
+                continue
             ok = bool(m) and m[1] == ("attr", m[0], fld) and m[2] == seq and not m[3]
             ctx.check(ok, "R4", f"NetworkConfiguration:{f.target}", (CONF, f.line), f"{f.target} = [x.{fld} for x in network.{seq[2]}]", found=show(simp(f.value))[:80])
     # enzo header
@@ -1502,4 +1534,14 @@ BENIGN += [
 ]
 MUTANTS += [
     {"name": "species-sorted-in-place-by-count-only", "file": NETF, "old": _SORT_OLD, "new": "        speclist.sort(key=lambda x: len(connection[x]))\n\n        return speclist\n", "rules": ["R9"]},
+]
+_WRAP_HEAD = "/***********************************************************************\n/\n/  GRID CLASS (WRAP THE NAUNET CHEMISTRY SOLVER)\n"
+BENIGN += [
+    {"name": "wrapper-lines-shifted", "file": WRAP, "old": _WRAP_HEAD, "new": '{% set wrapper_note = "the known findings below are the same constructs, further down" %}\n{% set wrapper_rev = 2 %}\n' + _WRAP_HEAD},
+]
+MUTANTS += [
+    {"name": "wrapper-shifted-and-one-more-overridden-alias-use", "edits": [
+        {"file": WRAP, "old": _WRAP_HEAD, "new": '{% set wrapper_note = "shifted" %}\n' + _WRAP_HEAD},
+        {"file": WRAP, "old": "        data[sidx].Tgas = temperature[igrid];\n\n        {% for s, n in zip(species.network, specnum) -%}\n",
+         "new": "        data[sidx].Tgas = temperature[igrid];\n\n        {% for s in species.network -%}\n          y[sidx + IDX_{{ s.alias }}] = 0.0;\n        {% endfor %}\n        {% for s, n in zip(species.network, specnum) -%}\n"}], "rules": ["R4"]},
 ]
